@@ -2,12 +2,14 @@
 """package a confirmed seeded change: package_seed.py <ID> <i> <prop-to-check> ["needs" text]"""
 import json, os, shutil, subprocess, sys
 pid, i, needs = sys.argv[1], sys.argv[2], (sys.argv[3] if len(sys.argv) > 3 else "")
-src = "/tmp/seed_out/{}/change_{}".format(pid, i)
-dst = "/verif/seeded/{}_{}".format(pid, i)
+OUT = os.environ.get("SEED_OUT", "/tmp/seed_out")
+TAG = os.environ.get("SEED_TAG", "")
+src = "{}/{}/change_{}".format(OUT, pid, i)
+dst = "/verif/seeded/{}_{}{}".format(pid, TAG, i)
 os.makedirs(dst, exist_ok=True)
 for fn in ("patch.diff", "demo.py", "notes.md"):
     shutil.copy(os.path.join(src, fn), os.path.join(dst, fn))
-conf = [l.strip() for l in open("/tmp/seed_out/confirm_{}.log".format(pid)) if " change_{} ".format(i) in l]
+conf = [l.strip() for l in open("{}/confirm_{}.log".format(OUT, pid)) if " change_{} ".format(i) in l]
 out = subprocess.run(["/verif/tools/try_seed.sh", os.path.join(dst, "patch.diff"), pid], capture_output=True, text=True).stdout
 lines = [l.strip() for l in out.splitlines() if l.startswith("  ")]
 exitline = [l for l in out.splitlines() if l.startswith("== ")]
